@@ -223,6 +223,55 @@ def search_effects(ck, exe, work):
                                "note": "opcode no longer excluded from hoisting but the targeted loop program did not expose it"})
 
 
+def search_patterns(ck, exe, work):
+    """search stage for a broken pattern_fields_carry_operands: find the rows of the regenerated table whose
+    immediate field is narrower than the operand constraint and run the instruction with constants the
+    constraint admits but the field cannot carry"""
+    try:
+        gen = open(os.path.join(VERIF, "lean", "MirVerif", "Gen", "C01_Patterns.lean")).read()
+    except Exception:
+        return
+    bits = {"0": 8, "1": 16, "2": 32, "3": 64}
+    for m in re.finditer(r'⟨"(\w+)", \[(.*?)\], \[(.*?)\]⟩', gen):
+        code, pat, repl = m.group(1), [t.strip() for t in m.group(2).split(",")], m.group(3)
+        for f in re.finditer(r"\.imm (\d+) (\d)", repl):
+            fb, n = int(f.group(1)), int(f.group(2))
+            if n >= len(pat):
+                continue
+            pt = pat[n]
+            k = re.fullmatch(r"\.same (\d)", pt)
+            if k:
+                pt = pat[int(k.group(1))]
+            pm = re.fullmatch(r"\.imm (\d)", pt)
+            if not pm or bits[pm.group(1)] <= fb:
+                continue
+            pb = bits[pm.group(1)]
+            vals = [2 ** (fb - 1), 2 ** fb - 1, -(2 ** (fb - 1)) - 1]
+            lo = code.lower()
+            for v in vals:
+                if code in ("MOV",):
+                    body = f"  mov r, {v}\n  mov i64:8(p), {v}\n  xor r, r, i64:8(p)\n  add r, r, a\n"
+                elif lo.startswith(("b", "ub")) and lo not in ("bt", "bf", "bts", "bfs", "bstart", "bend"):
+                    body = f"  mov r, 0\n  {lo} T1, a, {v}\n  mov r, 7\nT1:\n  mov i64:8(p), a\n  {lo} T2, i64:8(p), {v}\n  add r, r, 9\nT2:\n"
+                else:
+                    body = (f"  {lo} r, a, {v}\n  mov i64:8(p), a\n  {lo} i64:8(p), i64:8(p), {v}\n  xor r, r, i64:8(p)\n"
+                            f"  mov q, a\n  {lo} q, q, {v}\n  xor r, r, q\n")
+                text = ("m: module\nexport f\nf: func i64, i64:a, i64:b\n  local i64:p, i64:r, i64:q\n  alloca p, 32\n" + body +
+                        "  ret r\n  endfunc\n  endmodule\n")
+                plan = "call f ii_i 0 1\ncall f ii_i 7fffffff 3\ncall f ii_i ffffffffffffff80 ffffffff\ncall f ii_i 80 7\n"
+                rc, lines, err = progtie.run_engine(exe, ENGINES, text, plan, work, "patsearch", timeout=60)
+                badl = [l for l in lines if l.startswith("R ") and " | =" not in l]
+                if rc == 0 and badl:
+                    ck.violation({"stage": "search", "theorem": "pattern_fields_carry_operands (Props/C01Patterns.lean)",
+                                  "row": m.group(0)[:200], "mir": text, "plan": plan, "engines": ENGINES, "lines": badl[:4]},
+                                 what=f"pattern row for {code} puts an operand admitted up to {pb} bits into a {fb}-bit immediate field; "
+                                      f"with the constant {v}: {badl[0][:140]}")
+                    return
+            ck.broken_ties.append({"kind": "theorem", "name": "pattern_fields_carry_operands", "row": m.group(0)[:200],
+                                   "note": "field narrower than the constraint but the targeted programs did not expose it"})
+            return
+
+
 def run_corpus(ck, exe, work):
     n = 0
     for mir in sorted(glob.glob(os.path.join(VERIF, "corpus", "C01", "*.mir"))):
@@ -247,12 +296,12 @@ def run_corpus(ck, exe, work):
 def main():
     ck = Check("C01")
     quick = ck.tier == "quick"
-    gate_ok = ck.proof_gate(["MirVerif.Props.C01", "MirVerif.Props.C01Exprs", "MirVerif.Props.C01PhiElim", "MirVerif.Props.C01Effects"],
+    gate_ok = ck.proof_gate(["MirVerif.Props.C01", "MirVerif.Props.C01Exprs", "MirVerif.Props.C01PhiElim", "MirVerif.Props.C01Effects", "MirVerif.Props.C01Patterns"],
                   support_modules=["MirVerif.Model.GenTable", "MirVerif.Model.GenCanon", "MirVerif.Lemmas.GenTable",
                                    "MirVerif.Lemmas.GenPow2", "MirVerif.Lemmas.GenExt",
-                                   "MirVerif.Model.PhiElim", "MirVerif.Lemmas.PhiElim", "MirVerif.Model.Effects"],
+                                   "MirVerif.Model.PhiElim", "MirVerif.Lemmas.PhiElim", "MirVerif.Model.Effects", "MirVerif.Model.Patterns"],
                   bridge_modules=["MirVerif.Lemmas.BridgeC01", "MirVerif.Lemmas.BridgeC02"],
-                  translators=["c01_tables.py", "c02_tables.py", "c01_exprs.py", "c01_effects.py"])
+                  translators=["c01_tables.py", "c02_tables.py", "c01_exprs.py", "c01_effects.py", "c01_patterns.py"])
     if not quick:
         ck.leanchecker(["MirVerif.Props.C01"])
     exe = ck.cc("engine", ["harness/engine.c", os.path.join(REPO, "mir.c"), os.path.join(REPO, "mir-gen.c")],
@@ -275,11 +324,18 @@ def main():
     if not gate_ok:
         search_exprs(ck, exe, work)
         search_effects(ck, exe, work)
+        search_patterns(ck, exe, work)
     ncorp = run_corpus(ck, exe, work)
     ncorp += branch_shapes(ck, exe, work)
     nprogs = 6000 if quick else 120000
     opts = dict(jmpi=True)
-    fails, nev, stats, pwork = progtie.run_programs(ck, exe, ENGINES, nprogs, opts=opts, per_batch=25 if quick else 60)
+    fails, nev, stats, pwork = progtie.run_programs(ck, exe, ENGINES, nprogs, opts=opts, per_batch=25 if quick else 60,
+                                                    budget_s=420 if quick else 3000)
+    if stats.get("skipped_batches"):
+        ck.log(f"time budget used up: {stats['skipped_batches']} program batches not run")
+        if not fails:
+            ck.broken_ties.append({"kind": "budget", "name": "program tie", "skipped_batches": stats["skipped_batches"],
+                                   "note": "generated code or the generator hangs: batches ran into the per-call alarm"})
     seen = {}
     for f in fails:
         sig = classify(f)
